@@ -82,8 +82,19 @@ func c11Body(c *mc.Ctx) {
 		c.Skip("Marshal variant carries one symbol value or one field name")
 		return
 	}
+	// tokens may carry, besides their text, an ID assigned by some other table; the text decides
+	var wopts *drive.WriteOpts
+	if api < 2 {
+		wopts = &drive.WriteOpts{ForeignSID: []int64{0, 4, 11}[c.Pick("token.sid", 3)]}
+	}
 	apis := []string{"NewBinaryWriter(ssts)", "NewBinaryWriterLST", "MarshalBinary(ssts)", "MarshalBinaryLST"}
-	c.Case(func() string { return fmt.Sprintf("%s imports=%v uses=%v", apis[api], imps, uses) })
+	c.Case(func() string {
+		s := fmt.Sprintf("%s imports=%v uses=%v", apis[api], imps, uses)
+		if wopts != nil && wopts.ForeignSID != 0 {
+			s += fmt.Sprintf(" tokens-also-carry-sid=%d", wopts.ForeignSID)
+		}
+		return s
+	})
 	c.Class(apis[api])
 	var ssts []ion.SharedSymbolTable
 	var refcat refsym.Catalog
@@ -116,7 +127,7 @@ func c11Body(c *mc.Ctx) {
 				w = ion.NewBinaryWriter(&buf, ssts...)
 			}
 			for _, v := range vals {
-				errs = append(errs, drive.WriteValue(w, v, nil))
+				errs = append(errs, drive.WriteValue(w, v, wopts))
 			}
 			errs = append(errs, w.Finish())
 		})
